@@ -120,6 +120,61 @@ def runSEvs (s : Seg) (acc : List String) : List String → Option (List String)
       let s' := segStep { s with out := [] } k e
       runSEvs s' (segDigest s' :: acc) rest
 
+/-! `sys K NUMSEGS BADSEGS FILESIZE SEGSIZE GUESS ev …` — the composed system (reads on one node); ev ∈
+      R:RID:OFF:SIZE   node.read(consumer, OFF, SIZE)            d:REQ   the queued _deliver of request REQ runs
+      X:RID | P:RID | U:RID | T:RID   stopProducing | pauseProducing | resumeProducing | queued turn of read RID
+      a:… | n | u | s:GEN:ID:ST | l:GEN   the node's environment (as in `node` lines)
+    Output after every event: `calls|requests|active|retired|reads`, reads = RID:offset:size:alive:hungry:active:turns:result:req. -/
+def parseSysEv (reg : List Share) (t : String) : Option SysEv :=
+  match t.splitOn ":" with
+  | ["R", a, b, c] => do pure (.startRead (← a.toNat?) (← b.toNat?) (← c.toNat?))
+  | ["d", q] => do pure (.deliver (← q.toNat?))
+  | ["X", r] => do pure (.stop (← r.toNat?))
+  | ["P", r] => do pure (.pause (← r.toNat?))
+  | ["U", r] => do pure (.resume (← r.toNat?))
+  | ["T", r] => do pure (.turn (← r.toNat?))
+  | ["g", _, _] => none
+  | ["c", _] => none
+  | _ => (parseNEv reg t).map SysEv.node
+
+def showOptNat : Option Nat → String
+  | none => "-"
+  | some n => toString n
+
+def sysDigest (y : Sys) : String :=
+  let ncalls := y.node.log.map (fun p => s!"{p.1}:{showOut p.2}")
+  let rcalls := y.reads.flatMap (fun r => r.seg.out.map (fun o => s!"r{r.rid}:{showSegOut o}"))
+  let calls := if (ncalls ++ rcalls).isEmpty then "-" else ",".intercalate (ncalls ++ rcalls)
+  let n := y.node
+  let reqs := if n.requests.isEmpty then "-" else ",".intercalate (n.requests.map (fun r => s!"{r.1}.{r.2}"))
+  let act := match n.active with
+    | none => "-"
+    | some a => s!"{a.gen}.{a.segnum}.{b2s a.f.running}"
+  let ret := if n.retired.isEmpty then "-" else ",".intercalate (n.retired.map (fun r => s!"{r.1}={showOutcome r.2}"))
+  let rd (r : RSeg) : String :=
+    let res := match r.seg.result with
+      | none => "-"
+      | some none => "done"
+      | some (some e) => "err." ++ showSegErr e
+    ":".intercalate [toString r.rid, toString r.seg.offset, toString r.seg.size, b2s r.seg.alive, b2s r.seg.hungry,
+      showOptNat r.seg.active, toString r.seg.turns, res, showOptNat r.req]
+  let reads := if y.reads.isEmpty then "-" else ",".intercalate (y.reads.map rd)
+  "|".intercalate [calls, reqs, act, ret, reads]
+
+def runSysEvs (y : Sys) (reg : List Share) (acc : List String) : List String → Option (List String)
+  | [] => some acc.reverse
+  | t :: rest =>
+    match parseSysEv reg t with
+    | none => none
+    | some e =>
+      let y0 := { y with node := { y.node with log := [] },
+                         reads := y.reads.map (fun r => { r with seg := { r.seg with out := [] } }) }
+      let y' := sysStep y0 e
+      let reg' := match e with
+        | .node (.gotShares l) => reg ++ l
+        | _ => reg
+      runSysEvs y' reg' (sysDigest y' :: acc) rest
+
 def handle : List String → String
   | "node" :: mode :: k :: ns :: bad :: evs =>
     match (if mode == "fixed" then some true else if mode == "unfixed" then some false else none),
@@ -129,6 +184,13 @@ def handle : List String → String
       | some outs => if outs.isEmpty then "-" else ";".intercalate outs
       | none => "bad-op"
     | _, _, _, _ => "bad-op"
+  | "sys" :: k :: ns :: bad :: fs :: ss :: gs :: evs =>
+    match k.toNat?, ns.toNat?, parseNatList bad, fs.toNat?, ss.toNat?, gs.toNat? with
+    | some k, some ns, some bad, some fs, some ss, some gs =>
+      match runSysEvs { node := { k := k, numSegs := ns, badSegs := bad }, filesize := fs, segsize := ss, guess := gs } [] [] evs with
+      | some outs => if outs.isEmpty then "-" else ";".intercalate outs
+      | none => "bad-op"
+    | _, _, _, _, _, _ => "bad-op"
   | "seg" :: ss :: gs :: off :: sz :: evs =>
     match ss.toNat?, gs.toNat?, off.toNat?, sz.toNat? with
     | some ss, some gs, some off, some sz =>
